@@ -1026,6 +1026,34 @@ func (P *Prog) storedCoercer(ctor *ssa.Function) (cl *ssa.Function, env map[ssa.
 		}
 	})
 	if stored == nil {
+		// the constructor hands its coercer to a shared builder (`newNumberSchema[T](coerceFloat32, opts)`) that stores
+		// that parameter into the coercer field
+		eachInstr(ctor, func(_ *ssa.BasicBlock, _ int, in ssa.Instruction) {
+			c, ok := in.(*ssa.Call)
+			if !ok || stored != nil {
+				return
+			}
+			g := callOf(c).static
+			if g == nil || g.Blocks == nil || !inModule(funcPkgPath(g)) {
+				return
+			}
+			eachInstr(g, func(_ *ssa.BasicBlock, _ int, in2 ssa.Instruction) {
+				st, ok := in2.(*ssa.Store)
+				if !ok {
+					return
+				}
+				if _, f := fieldVar(st.Addr); f == nil || P.roleName(f) != "coercer" || P.roles.kindFieldSet[f.Origin()] == nil {
+					return
+				}
+				for k, prm := range g.Params {
+					if cvi(st.Val) == ssa.Value(prm) && k < len(c.Call.Args) {
+						stored = c.Call.Args[k]
+					}
+				}
+			})
+		})
+	}
+	if stored == nil {
 		return nil, nil, nil
 	}
 	switch x := cvi(stored).(type) {
